@@ -28,12 +28,12 @@ from . import constellation_common as cc
 from . import c15_calls
 
 GRAY = "modem/Gray.tla"
-GDEVS = ["G2BOnly16Bits", "B2GShiftMissing", "ErrCountsFirstOperand", "CountsInMemoryOrder"]
-GINV = ["TypeOK", "InverseLaw", "AdjacentLaw", "ReflectedLaw", "CascadeLoopInv", "HammingLaw", "SymmetryLaw", "AxisLaw"]
+GDEVS = ["G2BOnly16Bits", "B2GShiftMissing", "ErrCountsFirstOperand", "CountsInMemoryOrder", "BlockTailTwice"]
+GINV = ["TypeOK", "InverseLaw", "AdjacentLaw", "ReflectedLaw", "CascadeLoopInv", "HammingLaw", "SymmetryLaw", "AxisLaw", "TotalLaw"]
 GCALLS = "modem/GrayCalls.tla"
 KS_QUICK = [1, 2, 3, 4, 5, 8, 11, 12, 13, 15, 16]
 DTYPES = ["uint8", "uint16", "int32", "uint32", "int64", "uint64"]
-CARE = ["WellFormed", "Bijective", "GrayAdjacent", "Unchecked", "Accepts"]
+CARE = ["WellFormed", "Bijective", "GrayAdjacent", "Unchecked", "Accepts", "CopyIsEqual"]
 
 
 # ------------------------------------------------------------------ Gray.tla
@@ -213,6 +213,31 @@ def replay_gray(ctx, cases, label):
                                     "v": [a[1] for a in args[:n]], "form": f"array {la}/{lb} axis={axis}",
                                     "exp": np.asarray(want).tolist(), "got": got if isinstance(got, str) else np.asarray(got).tolist()})
                         break
+            # LONG frames: the emitted pairs repeated up to lengths just below / at / above multiples of the block sizes an
+            # implementation might count at a time (2^12, 2^16, 2^18); total and per-axis sums of the exact per-pair counts
+            if label.startswith("gray-basis62"):
+                fu, fv, fe = first.reshape(-1), second.reshape(-1), ex.reshape(-1)
+                for kk in (12, 16, 18):
+                    for L in (2 ** kk - 1, 2 ** kk, 2 ** kk + 1, 2 * 2 ** kk, 3 * 2 ** kk + 5):
+                        ix = (np.arange(L) + kk) % len(fu)
+                        A, B, E = fu[ix], fv[ix], fe[ix]
+                        trials = [("1-d", A, B, None, int(E.sum()))]
+                        if L % 128 == 0:
+                            trials.append(("2-d", A.reshape(128, -1), B.reshape(128, -1), None, int(E.sum())))
+                            trials.append(("2-d axis 0", A.reshape(128, -1), B.reshape(128, -1), 0, E.reshape(128, -1).sum(axis=0)))
+                        for tn, a_, b_, axis, want in trials:
+                            try:
+                                got = misc.count_bit_errors(a_, b_) if axis is None else misc.count_bit_errors(a_, b_, axis)
+                                same = np.array_equal(np.asarray(got), np.asarray(want))
+                            except Exception as exn:
+                                got, same = f"raised {type(exn).__name__}: {exn}"[:160], False
+                            if same:
+                                ctx.ok((label, "err-long", L, tn), n=L)
+                            else:
+                                bad.append({"stage": "R", "op": "errlong", "w": cs[0]["w"], "u": [int(x) for x in fu], "v": [int(x) for x in fv],
+                                            "form": f"{tn} frame of {L} pairs (pairs repeated cyclically from offset {kk})", "exp": np.asarray(want).tolist()[:8] if axis is not None else want,
+                                            "got": got if isinstance(got, str) else np.asarray(got).tolist() if axis is None else np.asarray(got).tolist()[:8],
+                                            "L": L, "kk": kk, "axis": axis, "e": [int(x) for x in fe]})
             # count_bits itself on multi-dimensional arrays in every layout (xor taken by numpy, counts position by position)
             xr = first ^ second
             for la in ("C", "F", "T", "lastaxis", "reversed"):
@@ -391,7 +416,7 @@ def judge_gray(ctx, bad):
                     asis[(W, dec(c["v"]))] = dec(c["ret"])
     seen = set()
     for b in bad:
-        what = (f"count_bit_errors({b['u']}, {b['v']}) as {b['form']}: expected {b['exp']}, got {b['got']}" if b["op"] in ("err", "errdt", "errmat")
+        what = (f"count_bit_errors({b['u']}, {b['v']}) as {b['form']}: expected {b['exp']}, got {b['got']}" if b["op"] in ("err", "errdt", "errmat", "errlong")
                 else f"{ {'b2g': 'binary2gray', 'g2b': 'gray2binary', 'pop': 'count_bits'}[b['op']] }({b['v'] if b['op'] != 'pop' else b['u']}) "
                      f"as {b['form']}: expected {b['exp']}, got {b['got']}")
         if b["op"] == "g2b" and asis.get((b["w"], b["v"])) == b["got"]:
@@ -469,7 +494,8 @@ def run(ctx):
     devjobs = [("G2BOnly16Bits", lambda: run_gray(62, "basis", dev=("G2BOnly16Bits",), nrand=2), "InverseLaw"),
                ("B2GShiftMissing", lambda: run_gray(4, "exh", dev=("B2GShiftMissing",)), "InverseLaw"),
                ("ErrCountsFirstOperand", lambda: run_gray(3, "pairs", dev=("ErrCountsFirstOperand",)), "HammingLaw"),
-               ("CountsInMemoryOrder", lambda: run_gray(3, "pairs", dev=("CountsInMemoryOrder",)), "AxisLaw")]
+               ("CountsInMemoryOrder", lambda: run_gray(3, "pairs", dev=("CountsInMemoryOrder",)), "AxisLaw"),
+               ("BlockTailTwice", lambda: run_gray(3, "pairs", dev=("BlockTailTwice",)), "TotalLaw")]
     from concurrent.futures import ThreadPoolExecutor
     with ThreadPoolExecutor(cc.nthreads()) as ex:
         futs = [(n, ex.submit(f)) for n, f in jobs]
@@ -530,6 +556,21 @@ def replay(ctx, data):
         ka, kb, lay = c["form"].split()[0], c["form"].split()[2], c["form"].split()[3]
         bad = replay_err_dtypes_one(ctx, c["u"], c["v"], c["exp"], ka, kb, lay)
         judge_gray(ctx, bad)
+        return
+    if c["op"] == "errlong":
+        from pyphysim.util import misc
+        fu, fv = np.array(c["u"], dtype=np.int64), np.array(c["v"], dtype=np.int64)
+        ix = (np.arange(c["L"]) + c["kk"]) % len(fu)
+        A, B = fu[ix], fv[ix]
+        if c["form"].startswith("2-d"):
+            A, B = A.reshape(128, -1), B.reshape(128, -1)
+        per = np.array(c["e"], dtype=np.int64)[ix]          # the per-pair counts TLC emitted, stored with the case
+        want = per.sum() if c["axis"] is None else per.reshape(128, -1).sum(axis=0)
+        got = misc.count_bit_errors(A, B) if c["axis"] is None else misc.count_bit_errors(A, B, c["axis"])
+        if not np.array_equal(np.asarray(got), np.asarray(want)):
+            ctx.violation(f"count_bit_errors of a {c['form']}: expected {np.asarray(want).tolist() if c['axis'] is None else 'per-column sums'}, got {np.asarray(got).tolist() if c['axis'] is None else 'others'}", c)
+        else:
+            ctx.ok()
         return
     if c["op"] == "errmat":
         from pyphysim.util import misc
